@@ -179,7 +179,10 @@ func (h *history) onDelete(key, val []byte) {
 	}
 	h.evicts = append(h.evicts, rec{in: input{Kind: kEvict, Key: string(key), Val: string(val)}, call: lo, ret: stamp, client: 1000 + len(h.evicts)})
 	h.mu.Unlock()
-	// the one unlocked window of the cache: widen it
+	// the one unlocked window of the cache: widen it; a Stats snapshot taken here must respect the bounds too
+	if h.conf.CB != 0 {
+		h.checkStats(h.c.Stats())
+	}
 	n := h.cbCount.Add(1)
 	x := (n*0x9e3779b97f4a7c15 ^ h.seed) >> 60
 	switch {
@@ -190,7 +193,7 @@ func (h *history) onDelete(key, val []byte) {
 	}
 	if h.conf.CB == 2 && x%3 == 0 {
 		// re-entrant reads (not recorded as client operations: they run inside a Set)
-		_ = h.c.Stats()
+		h.checkStats(h.c.Stats())
 		if v := h.c.Get(key); v != nil && !checkVal(string(key), string(v)) {
 			h.torn.CompareAndSwap(nil, fmt.Sprintf("re-entrant Get(%s) returned %q", key, v))
 		}
